@@ -28,7 +28,14 @@ RULE = (
     "indices above 2^24 and random pixels, through the point-based conversions only (Geometry2D methods, slim "
     "utilities, scalar conversions; no HxW array is allocated); oracle = exact Python-int i*W+j and (i,j), "
     "closed-form centres, with float tolerances and the boundary margin scaled to the float64 resolution at the "
-    "coordinate magnitude. geometry1d: lengths 1..14, 1D masks, the 1D closed forms. "
+    "coordinate magnitude. Input dtype is an explicit class in geometry2d, enum_shapes, geometry1d and huge_frames "
+    "(float64 / float32 / int64 / int32 / list-of-int): whole-number pixel coordinates in that dtype must convert to "
+    "the closed-form top-left corners / centres (scales make them non-integral), scaled coordinates rounded to the "
+    "dtype (float32) or to whole numbers (int classes) are re-located with exact rational arithmetic and must give "
+    "that pixel / continuous coordinate, and the conversions are chained through the library's own return values "
+    "(grid_pixel_centres_2d_from -> grid_scaled_2d_from -> grid_pixels_2d_from; row of the int64 centres grid -> "
+    "scaled_coordinates_2d_from -> pixel_coordinates_2d_from; the 1D index -> scaled -> index chain). "
+    "geometry1d: lengths 1..14, 1D masks, the 1D closed forms. "
     "masks: the five constructors (kinds with more parameters drawn more often) with radii that are either a "
     "fraction of the frame half-diagonal or anchored on / just inside / just outside a chosen pixel's radius "
     "(relative offsets 0, 1e-6..0.1), axis ratios in [0.1,1] (exactly 1 three times in ten), angles in "
@@ -58,6 +65,11 @@ ASSUMPTIONS = [
     "pixel units, |origin|/scale + H/2 + H), centres are compared with atol max(1e-10, 32*eps*M) (M = coordinate "
     "magnitude in scaled units), continuous pixel coordinates with atol max(1e-9, 64*eps*Q); index-valued outputs "
     "stay exact (int64 / integral float64 against Python ints)",
+    "dtype classes: numpy keeps float32 scalars in float32 when they meet Python floats, so float32 inputs are only "
+    "required to be right to float32 resolution (atol 8*eps32*magnitude, boundary margin 16*eps32*Q pixel; points "
+    "closer than the margin are counted as ties); int64 / int32 / list-of-int inputs must be right to float64 "
+    "resolution; the slim utilities index `.shape`, so a list is handed to them as np.asarray(list) while Grid2D "
+    "and the scalar conversions receive the list itself",
     "exact-equality classes of the mask parameters are decided with == on the generated floats; a threshold that "
     "coincides with a pixel's radius is still skipped through the 1e-9 tie band (only that pixel, not the case)",
     "numba is absent, so the @jit kernels run as plain Python (same source, no compilation step)",
@@ -99,9 +111,191 @@ def _axis_close(ctx, got, want, key, atol, what):
 
 
 # ---------------------------------------------------------------------------------------------
+# input dtypes and library-produced inputs (shared by the 2D and huge-frame sub-checks)
+# ---------------------------------------------------------------------------------------------
+DTYPES = ["float64", "float32", "int64", "int32", "list-of-int"]
+# draw order: Hypothesis favours the first element, so the integer class (library-produced centres) comes first
+_DTYPES_DRAW = ["int64", "float32", "int32", "list-of-int", "float64"]
+EPS64 = 2.0 ** -52
+EPS32 = 2.0 ** -23
+
+
+def _scalar(v, dt):
+    """One coordinate handed to a scalar conversion in the given dtype class (whole numbers for the int classes)."""
+    if dt == "float64":
+        return float(v)
+    if dt == "float32":
+        return np.float32(v)
+    if dt == "int64":
+        return np.int64(int(v))
+    if dt == "int32":
+        return np.int32(int(v))
+    return int(v)
+
+
+def _pair(a, b, dt):
+    return [_scalar(a, dt), _scalar(b, dt)] if dt == "list-of-int" else (_scalar(a, dt), _scalar(b, dt))
+
+
+def _cast(a, dt):
+    """(k,2) values in the dtype class: numpy array, or a nested list of Python ints."""
+    a = np.asarray(a)
+    if dt == "list-of-int":
+        return [[int(v) for v in row] for row in a]
+    return a.astype(dt)
+
+
+def _close2(ctx, got, want, key, tol, what):
+    g = np.asarray(got, dtype=float)
+    w = np.asarray(want, dtype=float)
+    if g.shape != w.shape:
+        ctx.fail(key, "%s: shape %s want %s" % (what, g.shape, w.shape))
+        return
+    ctx.close(g[:, 0], w[:, 0], key, atol=float(tol[0]), what=what + " [y component]")
+    ctx.close(g[:, 1], w[:, 1], key, atol=float(tol[1]), what=what + " [x component]")
+
+
+def _dtype_checks(ctx, aa, geom, shape, scales, origin, IJ, P, CONT, dt, pre, tol_sc64, tol_px64, marg64):
+    """Conversions fed with other dtypes than float64 and with the library's own return values.
+
+    IJ (k,2) whole pixel indices, P (k,2) float64 points inside those pixels, CONT (k,2) their continuous pixel
+    coordinates.  Pixel-unit inputs are whole numbers in the int classes; scaled-unit inputs are the points
+    rounded to the dtype (float32) or to whole numbers (int classes) and re-located with exact rational
+    arithmetic.  float32 inputs are only required to be right to float32 resolution (numpy keeps float32 scalars
+    in float32 when they meet Python floats), all other classes to float64 resolution."""
+    h, w = int(shape[0]), int(shape[1])
+    sy, sx = float(scales[0]), float(scales[1])
+    oy, ox = float(origin[0]), float(origin[1])
+    k = len(IJ)
+    ctx.label("dtype:" + dt)
+    My, Mx = abs(oy) + h * sy / 2.0, abs(ox) + w * sx / 2.0
+    Qy, Qx = My / sy + h, Mx / sx + w
+    tol_sc64 = np.asarray(tol_sc64, dtype=float) * np.ones(2)
+    tol_px64 = np.asarray(tol_px64, dtype=float) * np.ones(2)
+    marg64 = np.asarray(marg64, dtype=float) * np.ones(2)
+    if dt == "float32":
+        tol_sc = np.maximum(tol_sc64, 8.0 * EPS32 * np.array([My, Mx]))
+        tol_px = np.maximum(tol_px64, 8.0 * EPS32 * np.array([Qy, Qx]))
+        marg = np.maximum(marg64, 16.0 * EPS32 * np.array([Qy, Qx]))
+    else:
+        tol_sc, tol_px, marg = tol_sc64, tol_px64, marg64
+    fam = dt
+    gu = aa.util.geometry
+    kw = dict(shape_native=(h, w), pixel_scales=(sy, sx), origin=(oy, ox))
+    mask1k = aa.Mask2D.all_false(shape_native=(1, k), pixel_scales=1.0)
+
+    C = np.empty((k, 2))
+    C[:, 0] = oy + ((h - 1) / 2.0 - IJ[:, 0]) * sy
+    C[:, 1] = ox + (IJ[:, 1] - (w - 1) / 2.0) * sx
+    CORNER = np.empty((k, 2))                              # top-left corner of pixel (i, j)
+    CORNER[:, 0] = oy + (h / 2.0 - IJ[:, 0]) * sy
+    CORNER[:, 1] = ox + (IJ[:, 1] - w / 2.0) * sx
+    if np.any(CORNER != np.rint(CORNER)):
+        ctx.label("dtype:true-values-non-integral")
+
+    # (a) whole-number pixel coordinates in the dtype class -> scaled coordinates ------------------------------
+    arr = _cast(IJ, dt)
+    arr_np = np.asarray(arr)                               # the slim utilities index .shape, so they get an array
+    got = gu.grid_scaled_2d_slim_from(grid_pixels_2d_slim=arr_np, **kw)
+    _close2(ctx, got, CORNER, pre + "dtype/util.grid_scaled_2d_slim_from/" + fam, tol_sc,
+            "grid_scaled_2d_slim_from(%s whole pixel coordinates) vs top-left corners" % dt)
+    G = aa.Grid2D(values=arr, mask=mask1k)
+    got = geom.grid_scaled_2d_from(grid_pixels_2d=G)
+    _close2(ctx, np.asarray(got.slim), CORNER, pre + "dtype/grid_scaled_2d_from/" + fam, tol_sc,
+            "Geometry2D.grid_scaled_2d_from(Grid2D of %s) vs top-left corners" % dt)
+    nsc = min(k, 4)
+    got = np.array([[float(v) for v in geom.scaled_coordinates_2d_from(_pair(IJ[r, 0], IJ[r, 1], dt))]
+                    for r in range(nsc)])
+    _close2(ctx, got, C[:nsc], pre + "dtype/scaled_coordinates_2d_from/" + fam, tol_sc,
+            "scaled_coordinates_2d_from(%s pair) vs centres" % dt)
+
+    # (b) library-produced inputs: centres (int64 Grid2D) -> scaled -> pixels, and row-wise centre -> index ------
+    cont = aa.Grid2D(values=P.copy(), mask=mask1k)
+    cen = geom.grid_pixel_centres_2d_from(grid_scaled_2d=cont)
+    sc = geom.grid_scaled_2d_from(grid_pixels_2d=cen)
+    _close2(ctx, np.asarray(sc.slim), CORNER, pre + "chain/centres-to-scaled", tol_sc64,
+            "grid_scaled_2d_from(grid_pixel_centres_2d_from(p)) vs top-left corners")
+    px = geom.grid_pixels_2d_from(grid_scaled_2d=sc)
+    _close2(ctx, np.asarray(px.slim), IJ.astype(float), pre + "chain/centres-scaled-pixels", 2.0 * tol_px64,
+            "grid_pixels_2d_from(grid_scaled_2d_from(centres)) vs (i, j)")
+    ut = gu.grid_pixel_centres_2d_slim_from(grid_scaled_2d_slim=P.copy(), **kw)          # float array of whole numbers
+    got = gu.grid_scaled_2d_slim_from(grid_pixels_2d_slim=np.asarray(ut).astype("int"), **kw)
+    _close2(ctx, got, CORNER, pre + "chain/util-centres-to-scaled", tol_sc64,
+            "grid_scaled_2d_slim_from(grid_pixel_centres_2d_slim_from(p).astype(int)) vs top-left corners")
+    rows = np.asarray(cen.slim)
+    back = []
+    for r in range(nsc):
+        yx = geom.scaled_coordinates_2d_from((rows[r, 0], rows[r, 1]))          # numpy integer scalars
+        back.append(geom.pixel_coordinates_2d_from((yx[0], yx[1])))
+    ctx.equal(np.array(back), IJ[:nsc], pre + "chain/centres-scaled-centres",
+              "pixel_coordinates_2d_from(scaled_coordinates_2d_from(row of grid_pixel_centres_2d_from))")
+
+    if dt == "float64":
+        return
+
+    # (c) scaled coordinates in the dtype class -> pixels / indices ---------------------------------------------
+    if dt == "float32":
+        S = P.astype(np.float32)
+        V = S.astype(np.float64)
+    else:
+        V = np.rint(P)
+        S = _cast(V, dt)
+    S_np = np.asarray(S)
+    Q = [ref.locate_exact(V[r, 0], V[r, 1], (h, w), (sy, sx), (oy, ox)) for r in range(k)]
+    QF = np.array([[float(q[0]), float(q[1])] for q in Q])
+    LOC = np.array([[math.floor(q[0]), math.floor(q[1])] for q in Q], dtype=np.int64)
+    inside = np.array([0 <= q[0] < h and 0 <= q[1] < w for q in Q])
+    dist = np.array([[min(float(q[0] - math.floor(q[0])), float(math.floor(q[0]) + 1 - q[0])),
+                      min(float(q[1] - math.floor(q[1])), float(math.floor(q[1]) + 1 - q[1]))] for q in Q])
+    ok = inside & (dist[:, 0] > marg[0]) & (dist[:, 1] > marg[1])
+    ctx.tie(int((inside & ~ok).sum()))
+    got = gu.grid_pixels_2d_slim_from(grid_scaled_2d_slim=S_np, **kw)
+    _close2(ctx, got, QF, pre + "dtype/util.grid_pixels_2d_slim_from/" + fam, tol_px,
+            "grid_pixels_2d_slim_from(%s scaled coordinates) vs exact continuous coordinate" % dt)
+    GS = aa.Grid2D(values=S, mask=mask1k)
+    got = geom.grid_pixels_2d_from(grid_scaled_2d=GS)
+    _close2(ctx, np.asarray(got.slim), QF, pre + "dtype/grid_pixels_2d_from/" + fam, tol_px,
+            "Geometry2D.grid_pixels_2d_from(Grid2D of %s) vs exact continuous coordinate" % dt)
+    if ok.any():
+        ctx.label("dtype:scaled-input-located")
+        sel = np.nonzero(ok)[0]
+        want_flat = [int(LOC[r, 0]) * w + int(LOC[r, 1]) for r in sel]
+        got = gu.grid_pixel_centres_2d_slim_from(grid_scaled_2d_slim=S_np, **kw)
+        ctx.equal(np.asarray(got)[sel], LOC[sel], pre + "dtype/util.grid_pixel_centres_2d_slim_from/" + fam,
+                  "grid_pixel_centres_2d_slim_from(%s scaled coordinates)" % dt)
+        got = gu.grid_pixel_indexes_2d_slim_from(grid_scaled_2d_slim=S_np, **kw)
+        ctx.check([int(v) for v in np.asarray(got)[sel]] == want_flat,
+                  pre + "dtype/util.grid_pixel_indexes_2d_slim_from/" + fam,
+                  "grid_pixel_indexes_2d_slim_from(%s scaled coordinates) vs i*W+j" % dt)
+        got = geom.grid_pixel_centres_2d_from(grid_scaled_2d=GS)
+        ctx.equal(np.asarray(got.slim)[sel], LOC[sel], pre + "dtype/grid_pixel_centres_2d_from/" + fam,
+                  "Geometry2D.grid_pixel_centres_2d_from(Grid2D of %s)" % dt)
+        got = geom.grid_pixel_indexes_2d_from(grid_scaled_2d=GS)
+        ctx.check([int(v) for v in np.asarray(got.slim)[sel]] == want_flat,
+                  pre + "dtype/grid_pixel_indexes_2d_from/" + fam,
+                  "Geometry2D.grid_pixel_indexes_2d_from(Grid2D of %s) vs i*W+j" % dt)
+        for r in sel[:4]:
+            got = geom.pixel_coordinates_2d_from(_pair(V[r, 0], V[r, 1], dt))
+            ctx.equal(np.array([int(got[0]), int(got[1])]), LOC[r], pre + "dtype/pixel_coordinates_2d_from/" + fam,
+                      "pixel_coordinates_2d_from(%s pair)" % dt)
+
+    # (d) float32 continuous (non-whole) pixel coordinates -> scaled --------------------------------------------
+    if dt == "float32":
+        C32 = CONT.astype(np.float32)
+        want = np.array([ref.corner_from_pixel_exact(float(C32[r, 0]), float(C32[r, 1]), (h, w), (sy, sx), (oy, ox))
+                         for r in range(k)])
+        got = gu.grid_scaled_2d_slim_from(grid_pixels_2d_slim=C32, **kw)
+        _close2(ctx, got, want, pre + "dtype/util.grid_scaled_2d_slim_from/float32-fractional", tol_sc,
+                "grid_scaled_2d_slim_from(float32 continuous pixel coordinates)")
+        got = geom.grid_scaled_2d_from(grid_pixels_2d=aa.Grid2D(values=C32, mask=mask1k))
+        _close2(ctx, np.asarray(got.slim), want, pre + "dtype/grid_scaled_2d_from/float32-fractional", tol_sc,
+                "Geometry2D.grid_scaled_2d_from(Grid2D of float32 continuous pixel coordinates)")
+
+
+# ---------------------------------------------------------------------------------------------
 # 2D geometry
 # ---------------------------------------------------------------------------------------------
-def _check_geometry(shape, scales, origin, mask_l, fracs, shift, ctx, scalar=False):
+def _check_geometry(shape, scales, origin, mask_l, fracs, shift, ctx, scalar=False, dtype="float64"):
     aa = _aa()
     h, w = int(shape[0]), int(shape[1])
     sy, sx = float(scales[0]), float(scales[1])
@@ -222,6 +416,10 @@ def _check_geometry(shape, scales, origin, mask_l, fracs, shift, ctx, scalar=Fal
     _axis_equal(ctx, np.asarray(nat), IJ.reshape(h, w, 2), "index/util.grid_pixel_centres_2d_from",
                 "util.geometry.grid_pixel_centres_2d_from (native)")
 
+    # input dtype classes and library-produced inputs on (at most) 12 of the pixels
+    _dtype_checks(ctx, aa, geom, (h, w), (sy, sx), (oy, ox), IJ[sel].astype(np.int64), P[sel], want_cont[sel], dtype, "",
+                  ATOL_CENTRE, ATOL_PIX, BAND)
+
 
 _SCALE = st.one_of(st.sampled_from([0.05, 0.1, 0.25, 0.5, 1.0, 2.0, 5.0]), st.floats(0.05, 5.0, allow_nan=False))
 
@@ -286,12 +484,12 @@ def geometry2d(draw):
     shift = draw(st.integers(0, shape[0] * shape[1] - 1))
     scalar = draw(st.booleans()) if scales[0] == scales[1] else False
     return {"shape": shape, "scales": scales, "origin": origin, "mask": mask, "fracs": fracs, "shift": shift,
-            "scalar_scale": scalar}
+            "scalar_scale": scalar, "dtype": draw(st.sampled_from(_DTYPES_DRAW))}
 
 
 def body_geometry2d(case, ctx):
     _check_geometry(case["shape"], case["scales"], case["origin"], case["mask"], case["fracs"], case["shift"], ctx,
-                    scalar=bool(case.get("scalar_scale", False)))
+                    scalar=bool(case.get("scalar_scale", False)), dtype=str(case.get("dtype", "float64")))
 
 
 _PRESETS = [
@@ -320,7 +518,8 @@ def body_enum_shapes(case, ctx):
     p = _PRESETS_THOROUGH[case["preset"]]
     # container mask: checkerboard with the first pixel unmasked (mixed whenever H*W > 1)
     mask = [[bool((i + j) % 2) for j in range(w)] for i in range(h)]
-    _check_geometry([h, w], p["scales"], p["origin"], mask, _ENUM_FRACS, (h * w) // 2, ctx)
+    _check_geometry([h, w], p["scales"], p["origin"], mask, _ENUM_FRACS, (h * w) // 2, ctx,
+                    dtype=DTYPES[(h + 2 * w + case["preset"]) % len(DTYPES)])
 
 
 # ---------------------------------------------------------------------------------------------
@@ -335,7 +534,7 @@ def geometry1d(draw):
     if all(bits):
         bits[draw(st.integers(0, n - 1))] = False
     fr = draw(st.lists(_FRAC, min_size=1, max_size=4))
-    return {"n": n, "scale": s, "origin": o, "mask": bits, "fracs": fr}
+    return {"n": n, "scale": s, "origin": o, "mask": bits, "fracs": fr, "dtype": draw(st.sampled_from(_DTYPES_DRAW))}
 
 
 def body_geometry1d(case, ctx):
@@ -371,6 +570,46 @@ def body_geometry1d(case, ctx):
     got_i = np.array([gu.pixel_coordinates_1d_from(scaled_coordinates_1d=(float(p),), shape_slim=(n,),
                                                    pixel_scales=(s,), origins=(o,))[0] for p in P])
     ctx.equal(got_i, np.arange(n), "index1d/util.pixel_coordinates_1d_from", "pixel_coordinates_1d_from(point in pixel k)")
+
+    # input dtype classes (whole-number pixel coordinate; scaled coordinate rounded to the dtype and re-located
+    # exactly) and the chain index -> scaled -> index through the library's own return values
+    dt = str(case.get("dtype", "float64"))
+    ctx.label("dtype:" + dt)
+    M = abs(o) + n * s / 2.0
+    Qm = M / s + n
+    tol_c = ATOL_CENTRE if dt != "float32" else max(ATOL_CENTRE, 8.0 * EPS32 * M)
+    marg = BAND if dt != "float32" else max(BAND, 16.0 * EPS32 * Qm)
+    one = (lambda v: [_scalar(v, dt)]) if dt == "list-of-int" else (lambda v: (_scalar(v, dt),))
+    got_c = np.array([float(gu.scaled_coordinates_1d_from(pixel_coordinates_1d=one(k), shape_slim=(n,),
+                                                          pixel_scales=(s,), origins=(o,))[0]) for k in range(n)])
+    ctx.close(got_c, X, "dtype1d/util.scaled_coordinates_1d_from/" + dt, atol=tol_c,
+              what="scaled_coordinates_1d_from(%s whole pixel coordinate)" % dt)
+    if np.any(X != np.rint(X)):
+        ctx.label("dtype:true-values-non-integral")
+    chain = []
+    for k in range(n):
+        kk = gu.pixel_coordinates_1d_from(scaled_coordinates_1d=(float(P[k]),), shape_slim=(n,), pixel_scales=(s,),
+                                          origins=(o,))
+        xx = gu.scaled_coordinates_1d_from(pixel_coordinates_1d=kk, shape_slim=(n,), pixel_scales=(s,), origins=(o,))
+        chain.append(gu.pixel_coordinates_1d_from(scaled_coordinates_1d=xx, shape_slim=(n,), pixel_scales=(s,),
+                                                  origins=(o,))[0])
+    ctx.equal(np.array(chain), np.arange(n), "chain1d/index-scaled-index",
+              "pixel_coordinates_1d_from(scaled_coordinates_1d_from(pixel_coordinates_1d_from(p)))")
+    if dt != "float64":
+        V = P.astype(np.float32).astype(np.float64) if dt == "float32" else np.rint(P)
+        for k in range(n):
+            q = ref.locate_exact(0.0, V[k], (1, n), (1.0, s), (0.0, o))[1]
+            fl = math.floor(q)
+            if not (0 <= q < n):
+                continue
+            if min(float(q - fl), float(fl + 1 - q)) <= marg:
+                ctx.tie(1)
+                continue
+            ctx.label("dtype:scaled-input-located")
+            got = gu.pixel_coordinates_1d_from(scaled_coordinates_1d=one(V[k]), shape_slim=(n,), pixel_scales=(s,),
+                                               origins=(o,))[0]
+            ctx.check(int(got) == fl, "dtype1d/util.pixel_coordinates_1d_from/" + dt,
+                      "pixel_coordinates_1d_from(%s %r): got %r want %d" % (dt, V[k], got, fl))
 
 
 # ---------------------------------------------------------------------------------------------
@@ -436,7 +675,8 @@ def huge_cases(draw):
             t = draw(st.integers(0, n - 1))
         i, j = divmod(t, w)
         pts.append({"i": i, "j": j, "uy": float(draw(_UNIT)), "ux": float(draw(_UNIT)), "tag": tag})
-    return {"shape": [h, w], "scales": scales, "origin": origin, "points": pts}
+    return {"shape": [h, w], "scales": scales, "origin": origin, "points": pts,
+            "dtype": draw(st.sampled_from(_DTYPES_DRAW))}
 
 
 def _ints(a):
@@ -547,6 +787,10 @@ def body_huge(case, ctx):
     again = geom.grid_pixels_2d_from(grid_scaled_2d=back)
     axis_close(np.asarray(again.slim), CONT, "huge/continuous/roundtrip-pixels-scaled-pixels", 2.0 * tol_px,
                "Geometry2D.grid_pixels_2d_from(grid_scaled_2d_from(q))")
+
+    # input dtype classes and library-produced inputs
+    _dtype_checks(ctx, aa, geom, (h, w), (sy, sx), (oy, ox), IJ, P, CONT, str(case.get("dtype", "float64")), "huge/",
+                  tol_sc, tol_px, marg)
 
 
 # ---------------------------------------------------------------------------------------------
